@@ -369,6 +369,7 @@ func (u *upstream) handleRedirection(req *simpleRequest, resp *RespValue) {
 		askingReq := newSimpleRequest(newArray(
 			*newBulkString(ASKING),
 		))
+		askingReq.abort = req.abort
 		u.MakeRequestToHost(hostAddr, askingReq)
 		u.MakeRequestToHost(hostAddr, req)
 	default:
@@ -459,6 +460,9 @@ func (u *upstream) doSlotsRefresh() error {
 		*newBulkString("nodes"),
 	)
 	req := newSimpleRequest(v)
+	// Serve waits for the refresher before it stops the backend connections: do
+	// not wait for room in the queue of a silent one while shutting down.
+	req.abort = u.quit
 
 	addr, err := u.randomHost()
 	if err != nil {
@@ -676,6 +680,10 @@ func (c *client) Send(req *simpleRequest) {
 	case <-c.quit:
 		c.sendMu.RUnlock()
 		req.SetResponse(newError(backendExited))
+	case <-req.abort:
+		// the sender itself is shutting down (nil, i.e. never, for a session).
+		c.sendMu.RUnlock()
+		req.SetResponse(newError(backendExited))
 	case c.pendingReqs <- req:
 		c.sendMu.RUnlock()
 	}
@@ -773,6 +781,10 @@ func (c *client) handleResp(req *simpleRequest, v *RespValue) {
 	case bytes.EqualFold(errPrefix, []byte(MOVED)),
 		bytes.EqualFold(errPrefix, []byte(ASK)):
 		if c.onRedirection != nil {
+			// the resend happens in this read loop and may wait for room in the
+			// queue of another connection: not beyond the end of this one, whose
+			// own queues are drained only after this loop has returned.
+			req.abort = c.quit
 			c.onRedirection(req, v)
 			return
 		}
